@@ -9,6 +9,7 @@ import FP.Model.Enc.KCoverC
 import FP.Model.Enc.KLAEC
 import FP.Model.Enc.KMPEC
 import FP.Model.ParserJson
+import FP.Model.Enc.IgnoreBlock
 import FP.Model.C17Json
 import FP.Model.SafetyJson
 import FP.Model.MFD
@@ -25,6 +26,6 @@ open Lean
 
 def encHandlersAll : List (String → Json → Option (Except String Json)) :=
   [handleKLAE, handleKMPE, handleKCover, handleMGS, handleMSC, handleMEF,
-   handleKFDC, handleKCoverC, handleKLAEC, handleKMPEC, FP.Parser.handleParser, FP.MFD.handleMFD, NX.handleNodeExpand, handleK4, handleKFDCWitness, handleErrCheck, handleWidth, Safety.handleSafety, handleC17]
+   handleKFDC, handleKCoverC, handleKLAEC, handleKMPEC, FP.Parser.handleParser, FP.MFD.handleMFD, NX.handleNodeExpand, handleK4, handleKFDCWitness, handleErrCheck, handleWidth, Safety.handleSafety, handleC17, handleIgnoreBlock]
 
 end FP
